@@ -12,9 +12,9 @@ ASSUME = c02.ASSUME + [
 
 
 def run(tier):
-    rc = c02.run_e2(PID, tier, ASSUME, grammars=("act_loc", "act_inline", "act_plain"),
+    rc = c02.run_e2(PID, tier, ASSUME, grammars=("act_loc", "act_loc2", "act_inline", "act_plain"),
                     relevant=lambda c: any(x in c for x in c02.LOCATION),
-                    whole=(("act_loc", "act_inline"), ("args",)))
+                    whole=(("act_loc", "act_loc2", "act_inline"), ("args",)))
     # driver half: the location handed to every reduce() call is the start of the current lookahead token / None at end of input
     return e3.add_stage(PID, tier, rc, ["plain", "recovery"], {"C06"},
                         extra_assumptions=["driver stage: on every path of the real driver (with and without error recovery) each reduce() call receives the start location of "
